@@ -6,7 +6,9 @@
 (*     keysets whose every key has PUBLIC or REMOTE material -- SYMMETRIC, PRIVATE and      *)
 (*     UNKNOWN material anywhere in the keyset (any position, any status) refuses;          *)
 (*   - the artifacts a handle emits and, for each, the set of fields it may populate and    *)
-(*     whether key bytes may occur in it.                                                   *)
+(*     whether key bytes may occur in it;                                                   *)
+(*   - the rule for string-valued outputs (error texts, fmt renderings, panic values):       *)
+(*     no such text may expose key material.                                                 *)
 EXTENDS KeysetIO
 
 \* ------------------------------------------------------------------ the guard
@@ -36,6 +38,12 @@ Allowed(kind, format, mode) ==
     [] kind = "blob" /\ format = "json" -> KeysetJson
 \* key bytes may be visible only in what the insecure cleartext writer produced
 MayShowKeyBytes(kind, mode) == kind = "blob" /\ mode = "cleartext"
+
+\* Every string an API hands back is an artifact as well: the text of every returned error (refusals of the *NoSecrets
+\* APIs, failed reads with a wrong key-encryption key or associated data, failed writes), fmt renderings (%v %+v %#v) of
+\* handles, entries, key objects and parameters objects, and panic values.  None of them may expose key material, in
+\* whatever encoding (raw, hex, base64, Go-escaped, protobuf text-format octal escapes, byte lists printed as numbers).
+TextArtifactOK(leak) == ~leak
 
 ArtifactOK(kind, format, mode, fields, leak) ==
   /\ fields \subseteq Allowed(kind, format, mode)
